@@ -36,7 +36,9 @@ OTH_UNIVERSE = (['b', 'c'], ['y', 'z'])
 
 TAKES = [(['a'], None, False), (None, ['y'], False), (['b', 'a'], ['y', 'x'], False), (['b', 'a'], ['y', 'x'], True),
          ([], None, False), ([], [], True), (['a', 'a'], None, False), (['b', 'a', 'b'], None, True),
-         (['q'], None, False), (['a'], ['q', 'x'], False), (None, None, False), (None, ['y', 'x'], True)]
+         (['q'], None, False), (['a'], ['q', 'x'], False), (None, None, False), (None, ['y', 'x'], True),
+         # a name of the OTHER axis is unknown on this one (the two name spaces are separate)
+         (['x'], None, False), (['a', 'y'], None, True), (None, ['a'], False), (['a'], ['x', 'b'], True)]
 
 DERIVATIONS = (['copy'], ['union', False], ['union', True], ['or'], ['intersection', False], ['intersection', True],
                ['and'], ['transposed'], ['neg'], ['inverted'], ['invert'], ['transposed2'], ['inverted2']) + \
@@ -267,8 +269,8 @@ def make_machine(ctx):
         def take(self, data, reorder):
             i = data.draw(st.integers(0, len(self.pool) - 1))
             m = self.pool[i][1]
-            objs = data.draw(st.one_of(st.none(), st.lists(st.sampled_from(m.objects + ['q']), max_size=4)))
-            props = data.draw(st.one_of(st.none(), st.lists(st.sampled_from(m.properties + ['q']), max_size=4)))
+            objs = data.draw(st.one_of(st.none(), st.lists(st.sampled_from(m.objects + ['q'] + m.properties[:1]), max_size=4)))
+            props = data.draw(st.one_of(st.none(), st.lists(st.sampled_from(m.properties + ['q'] + m.objects[:1]), max_size=4)))
             der = ['take', objs, props, reorder]
             self.log.append(['derive', i, i, der])
             self._derive(i, i, der)
